@@ -238,3 +238,41 @@ PROPS = {
         rule="time_dur: one actor runs the real AtomicDuration::{new,store,take,get} and TimeOutList::add_timer+schedule_timer (virtual clock) over a stratified sample of the Duration range from the scenario seed (0, 1 ns, < 1 ms, k ms +- 1 ns, seconds, hours, 2^63/2^64 ns, usize::MAX ms, Duration::MAX); every output is recomputed by the Lean model; non-trivial = at least one store/take round trip; distinct = SHA-1 of the canonical trace",
     ),
 }
+
+# ---- C17 / C18: network I/O (wp-io). PARTIAL BY NATURE: the kernel is an environment with a contract, not verified.
+TB_IO = TB_COMMON + [
+    "the Linux kernel (epoll edge semantics, TCP / Unix byte streams, datagram queues, eventfd, monotonic clock) is an adversarial ENVIRONMENT with the contract stated in Model/Io.lean (byte FIFO per direction; read = non-empty prefix or EAGAIN iff empty, 0 only after shutdown and drain; write = non-empty prefix or EAGAIN iff full; datagrams atomic; an edge event is queued whenever data/space/a connection ARRIVES); it is assumed, not verified; the replay inserts the unobservable kernel steps, so the contract itself is not checked against the traces",
+    "results of the non-blocking system calls, io-timer arm/disarm/fire and del_fd are reported by add-only cfg(may_verif) hook points (pending_hooks/wp-io.patch) AFTER the call: their position in the log is later than the kernel's own linearization",
+    "the scheduler (run queues, work stealing, resume of a scheduled coroutine) and the timer list (mpsc_list_v1 entries) are abstracted: `queued` flag, entry states armed/disarmed/gone (C01/C04/C08/C19 are their own checks)",
+    "one operation at a time per IoData (the API contract of &mut self / split / try_clone) is built into the model (`user`)",
+]
+IO_ASSUME = [
+    "quantitative real time is not asserted: live oracles use wall-clock LOWER bounds only, completion is the watchdog's business",
+    "fair scheduling for the quiescence-form theorems (io_no_missed_edge): quiet on the socket = no kernel tail between co.store and its re-check, no selector between fetch_or and co.take",
+    "FINDINGS on the pinned tree (reported with reproducer families and pending_fixes patches; the default families avoid them so that the check is stable): (1) every net `subscribe` uses `self`/`io_data`/`cancel` after publishing the coroutine with co.store (use-after-free: SIGSEGV / heap corruption when the resumed coroutine finishes first) - the scenarios keep sockets (boxed), coroutine handles and actor threads alive until the run has settled and use may's connect only in unperturbed scenarios; (2) io timer armed before the coroutine is published: a timer firing in between is lost, the read blocks for ever (`vh live io_timeout_race`, time-outs of 1-3 ms; default family uses >= 20 ms); (3) CancelIoImpl::cancel leaves the io timer armed: it fires into a later operation on a socket that outlives the cancelled coroutine (`vh live io_cancel_shared`)",
+]
+PROPS["C17"] = dict(
+    lean_props=["MayVerif.Props.C17"],
+    families=[dict(mode="live", name="io_stream", quick=240, thorough=2400, nontrivial=r"io\.sys\.unix\.mod\.co@\S+ opt\.store ", timeout=600)],
+    trusted_base=TB_IO,
+    assumptions=IO_ASSUME + [
+        "stream_preserved / datagram_boundaries are theorems over the kernel contract plus the library's pass-through of the last non-EAGAIN system-call result; that the library adds no buffering of its own is what the live byte-for-byte oracles check",
+    ],
+    rule="live mode, real sockets on loopback / socketpair: TcpStream and UnixStream (1-2 connections, 1-4 in the thorough tier; payload 0 .. 150 KB, .. 600 KB thorough; seeded write chunkings, read buffer sizes, SO_SNDBUF/SO_RCVBUF 2-16 KB, coroutine and plain-thread callers on both ends), UDP and Unix datagrams (1-12 / 1-40 datagrams of 0-1400 bytes); oracles: received == sent byte for byte and in order, read returns 0 only after the writer shut down and everything was delivered, write never accepts 0 or more than offered, every datagram arrives with its size and content; completion by watchdog; non-trivial = at least one operation really blocked and registered its coroutine (co opt.store in the trace); distinct = SHA-1 of the canonical trace",
+    explanation="PARTIAL BY NATURE: kernel = environment with contract; promptness measured, never asserted",
+)
+PROPS["C18"] = dict(
+    lean_props=["MayVerif.Props.C18"],
+    families=[
+        dict(mode="live", name="io_timeout", quick=96, thorough=1200, nontrivial=r" t\.(fire|disarm) ", timeout=900),
+        dict(mode="live", name="io_cancel", quick=180, thorough=2400, nontrivial=r"cancel\.state@\S+ fetch_or ", timeout=600),
+    ],
+    trusted_base=TB_IO,
+    assumptions=IO_ASSUME + [
+        "time-outs are whole milliseconds >= 1 ms (F2, owned by wp-time: AtomicDuration truncates; io_timeout_truncation_f2 states what happens otherwise); the default io_timeout family uses 20-64 ms for the expiring operations and 400-700 ms for the fed ones",
+        "TcpListener / UnixListener have no accept time-out in may's API and no loopback address black-holes a connect, so time-outs are exercised on read (TCP, Unix stream) and recv_from (UDP)",
+        "cancel is proved at step level plus the two sequential register-then-recheck runs (io_cancel_ends_with_cancel_partial); the all-interleavings form is open (see the theorem's comment); write/send do not register for io cancel in the code",
+    ],
+    rule="live mode, real sockets: io_timeout = 2-4 (2-7 thorough) operations on ONE socket (TCP, Unix stream, UDP; coroutine or thread reader): `idle` read with a 20-64 ms time-out and nothing sent (must fail with TimedOut, elapsed >= time-out, no upper bound), `fed` read with 400-700 ms and data after 0-3 ms (data, or a not-early time-out on a slow machine and the data in a later read), `after` read with NO or a 4x longer time-out right after a timed one, data after the earlier deadline (must not fail / return early); io_cancel = a coroutine blocked in TCP/Unix read (optionally with a 1.5 s time-out armed, optionally after consuming 1-2000 bytes) or in accept is cancelled after 0-3000 us by main or a thread, 0-1 (0-2) other connections transfer concurrently: join returns the Cancel error, the victim's captured state is dropped exactly once, its peer reads EOF (after the harness-deferred close), the other transfers pass the stream oracle; non-trivial = a timer fired or was disarmed / a cancel was issued; distinct = SHA-1 of the canonical trace",
+    explanation="PARTIAL BY NATURE: kernel and clock = environment; promptness measured, never asserted. Three findings on the pinned tree are reported, witnessed in Lean and reproduced by the families io_timeout_race / io_cancel_shared (not part of the default run)",
+)
